@@ -23,15 +23,26 @@ MESSAGE = {"undef_symbol": r"unknown identifier: fzundef", "undef_macro": r"unkn
            "unclosed_block": r"expected closing delimiter|unexpected|expected"}
 
 
-def make_fault(rng, klass):
+def make_fault(rng, klass, macros_with_arg=None):
     """lines to insert (relative to one slot) and where the offending construct is:
     -> (lines, bad_line_index, bad_col, parts) ; parts = spans (col_lo, col_hi) on the bad line of what the error arms see"""
     r = rng
     if klass == "undef_symbol":
-        pre = r.choice(["lda ", ".byte 1, ", ".word ", "sta ", ".if ", "cmp #<"])
-        post = {".if ": " { nop }", ".byte 1, ": " + 1"}.get(pre, "")
-        line = pre + "fzundef" + post
-        return [line], 0, len(pre), {"usage": (len(pre), len(pre) + 7)}
+        # the faulty name alone or inside a larger expression (next to defined(..), !, -, modifiers, parentheses, a dotted
+        # path), in every statement kind that evaluates an expression; `@` marks where the name goes
+        shapes = ["lda @", "sta @", ".byte 1, @ + 1", ".word @", ".if @ { nop }", "cmp #<@", "lda #>@", ".byte !@", ".byte -@",
+                  ".byte 1 + (@ * 2)", ".if @ && defined(fzother) { nop }", ".if defined(fzother) || @ { nop }",
+                  ".if !defined(fzother) && @ { nop } else { inx }", "lda #@ + defined(fzother)", ".byte defined(fzother), @",
+                  ".word defined(fzother) + 2 * @", ".loop @ { nop }", ".align @", ".word 1, 2, @", ".dword @", ".const fzc9 = @ + 1",
+                  ".var fzv9 = @", ".if 1 + @ { nop } else { inx }", ".text @", "jmp @", "bne @", "lda @,x", "lda (@),y", "* = @",
+                  ".byte @.sub", ".loop 1 + @ { nop }", ".if @ == 1 && defined(fzother) { nop }"]
+        shapes += ["%s(@)" % m for m in (macros_with_arg or [])] + ["%s(1 + @)" % m for m in (macros_with_arg or [])]
+        sh = r.choice(shapes)
+        at = sh.index("@")
+        name = "fzundef"
+        line = sh.replace("@", name)
+        hi = at + len(name) + (4 if sh[at + 1:at + 5] == ".sub" else 0)
+        return [line], 0, at, {"usage": (at, hi)}
     if klass == "undef_macro":
         args = r.choice(["", "1", "1, 2"])
         return ["fznomacro(%s)" % args], 0, 0, {"name": (0, 9)}
@@ -80,7 +91,9 @@ def inject(rng, g, executed, klass):
     for sl in slots:
         by_container.setdefault(sl[0], []).append(sl)
     _, fname, off, depth = rng.choice(by_container[rng.choice(sorted(by_container))])
-    lines, bad_idx, bad_col, parts = make_fault(rng, klass)
+    # macros of the valid program that take one argument (visible in the main file)
+    mwa = [name for name, has_arg, _ in g.macros if has_arg] if fname == "main.asm" else []
+    lines, bad_idx, bad_col, parts = make_fault(rng, klass, mwa)
     files = dict(g.files)
     data = files[fname].encode("utf-8")
     # slots are line starts; the end of the main file may have been re-written after the slot was recorded
